@@ -1,8 +1,9 @@
-import BrushVerif.Model.Wire
-/-! Driver for C03 (stub until the property's model exists). -/
+import BrushVerif.Drv.C02
+/-! Driver for C03: same request/response as C02 (programs may toggle options and use command
+substitutions, eval and pipelines). -/
 namespace BrushVerif.Drv.C03
 open BrushVerif.Wire
 
-def handle (_toks : List Str) : Str := "unimplemented".toList
+def handle (toks : List Str) : Str := BrushVerif.Drv.C02.handle toks
 
 end BrushVerif.Drv.C03
